@@ -180,4 +180,190 @@ theorem eot_reduction_partial (e : ℝ) (h : -180 < e ∧ e ≤ 180) :
   rw [eot_reduce_id (by rw [abs_lt]; constructor <;> linarith)]
   exact h
 
+/-- "(m, s) recombine to |E|": with `E = 4·e` minutes as the code forms it (`e *= 4.0`, an Angle),
+    `0 ≤ s < 60`, `|E| = |m| + s/60`, and `m` carries the sign of `E` exactly when `|E| ≥ 1` minute;
+    for `|E| < 1` minute `m = 0` and the sign is lost (next theorem). -/
+theorem eot_split_recombine (e : ℝ) :
+    0 ≤ (eot_split e).2 ∧ (eot_split e).2 < 60 ∧
+    |aMulF e 4.0| = |(((eot_split e).1 : ℤ) : ℝ)| + (eot_split e).2 / 60 ∧
+    (1 ≤ aMulF e 4.0 → 1 ≤ (eot_split e).1) ∧ (aMulF e 4.0 ≤ -1 → (eot_split e).1 ≤ -1) ∧
+    (|aMulF e 4.0| < 1 → (eot_split e).1 = 0) := by
+  unfold eot_split
+  simp only
+  set x := aMulF e 4.0
+  have hfl := Int.floor_le (pabs x)
+  have hlt := Int.lt_floor_add_one (pabs x)
+  obtain ⟨s1, s2, s3⟩ := ptrunc_sign x
+  refine ⟨?_, ?_, ?_, s1, s2, s3⟩
+  · rw [pmod_one]; linarith
+  · rw [pmod_one]; linarith
+  · rw [ptrunc_abs, pmod_one]; unfold pabs; norm_num
+
+/-- The sign of the equation of time is lost below one minute: `e` and `−e` (|4e| < 1 minute) give
+    the same `(0, s)`. (Known finding C14-eot-sign-below-one-minute.) -/
+theorem eot_split_sign_lost (e : ℝ) (h : |e| < 1 / 4) :
+    eot_split (-e) = eot_split e ∧ (eot_split e).1 = 0 := by
+  have hm : aMulF e 4.0 = e * 4 := by
+    unfold aMulF
+    rw [aReduce_of_abs_lt (by rw [abs_mul]; norm_num; linarith)]; norm_num
+  have hm' : aMulF (-e) 4.0 = -(e * 4) := by
+    unfold aMulF
+    rw [aReduce_of_abs_lt (by rw [abs_mul, abs_neg]; norm_num; linarith)]; norm_num
+  have h4 : |e * 4| < 1 := by rw [abs_mul]; norm_num; linarith
+  have z1 := (ptrunc_sign (e * 4)).2.2 h4
+  have z2 := (ptrunc_sign (-(e * 4))).2.2 (by rw [abs_neg]; exact h4)
+  unfold eot_split
+  simp only [hm, hm', z1, z2, pabs, abs_neg, and_self]
+
+/-! ## Sunrise and sunset (Epoch.rise_set) -/
+
+/-- "sunrise before local transit before sunset": whenever `rise_set` gets as far as returning
+    (the `acos` argument `c` is then in [−1, 1]), the hour angle `ω = degrees(acos c)` is in
+    [0°, 180°] and the two instants handed to the Epoch constructor are `jtran ∓ ω/360`, so
+    rise ≤ transit ≤ set, at most half a day either side. -/
+theorem rise_order (ejde : ℝ) (leap : Int) (lat lon alt jt om c : ℝ)
+    (h : rise_set_core ejde leap lat lon alt = .ok (jt, om, c)) :
+    -1 ≤ c ∧ c ≤ 1 ∧ om = Real.arccos c * (180 / Real.pi) ∧ 0 ≤ om ∧ om ≤ 180 ∧
+    (rise_set_args (jt, om, c)).1 ≤ jt ∧ jt ≤ (rise_set_args (jt, om, c)).2 ∧
+    (rise_set_args (jt, om, c)).2 - (rise_set_args (jt, om, c)).1 ≤ 1 := by
+  unfold rise_set_core at h
+  simp only at h
+  split_ifs at h with h1 h2 h3 h4 h5
+  simp only [Except.ok.injEq, Prod.mk.injEq] at h
+  obtain ⟨hjt, hom, hc⟩ := h
+  rw [hc] at hom h5
+  have hc1 : |c| ≤ 1 := by
+    unfold plt pabs at h5; norm_num at h5; exact h5
+  have hpi := Real.pi_pos
+  have hom' : om = Real.arccos c * (180 / Real.pi) := by rw [← hom]; rfl
+  have h0 : 0 ≤ om := by rw [hom']; exact mul_nonneg (Real.arccos_nonneg c) (by positivity)
+  have h180 : om ≤ 180 := by
+    rw [hom']
+    calc Real.arccos c * (180 / Real.pi) ≤ Real.pi * (180 / Real.pi) :=
+          mul_le_mul_of_nonneg_right (Real.arccos_le_pi c) (by positivity)
+      _ = 180 := by field_simp
+  refine ⟨neg_le_of_abs_le hc1, le_of_abs_le hc1, hom', h0, h180, ?_, ?_, ?_⟩ <;>
+    (unfold rise_set_args; simp only; norm_num; try linarith)
+
+/-- The `acos` argument of `rise_set` is in range — no "math domain error" — under the explicit,
+    decidable hypothesis `|φ| + 23.44° + 0.83° + dip ≤ 90°` (dip = 2.076·√height/60 degrees), for every
+    date, longitude and leap-second count.  PARTIAL: the property asks for every latitude inside the
+    polar circles (the code accepts |φ| ≤ 66°33'); for 65.73° < |φ| ≤ 66.55° around the solstices
+    the argument leaves [−1, 1] (`rise_safe_counterexample`) and Python raises ValueError. -/
+theorem rise_safe_partial (ejde : ℝ) (leap : Int) (lat lon alt : ℝ) (halt : 0 ≤ alt)
+    (hlat : |lat| + 23.44 + 0.83 + 2.076 * Real.sqrt alt / 60 ≤ 90) :
+    ∃ r, rise_set_core ejde leap lat lon alt = .ok r := by
+  have hpi := Real.pi_pos
+  have hsq := Real.sqrt_nonneg alt
+  have hl := abs_le.mp (show |lat| ≤ 65.73 by linarith)
+  -- the five tests of the model, in order
+  have t1 : (plt rise_limit lat || plt lat (aNeg rise_limit)) = false := by
+    rw [aNeg_rise_limit, rise_limit_val]; unfold plt
+    simp only [Bool.or_eq_false_iff, decide_eq_false_iff_not, not_lt]
+    constructor <;> linarith [hl.1, hl.2]
+  have t3 : plt alt 0.0 = false := by
+    unfold plt; simp only [decide_eq_false_iff_not, not_lt]; norm_num; exact halt
+  unfold rise_set_core
+  simp only [t1, t3, Bool.false_eq_true, if_false]
+  set lr := pradians (pmod (pmod (357.5291 + 0.98560028 * (ejde - 2451545.0 + (10.0 + 32.184 + ofInt leap) / 86400.0 - lon / 360.0)) 360.0 +
+      (1.9148 * psin (pradians (pmod (357.5291 + 0.98560028 * (ejde - 2451545.0 + (10.0 + 32.184 + ofInt leap) / 86400.0 - lon / 360.0)) 360.0)) +
+        0.02 * psin (2.0 * pradians (pmod (357.5291 + 0.98560028 * (ejde - 2451545.0 + (10.0 + 32.184 + ofInt leap) / 86400.0 - lon / 360.0)) 360.0)) +
+        0.0003 * psin (3.0 * pradians (pmod (357.5291 + 0.98560028 * (ejde - 2451545.0 + (10.0 + 32.184 + ofInt leap) / 86400.0 - lon / 360.0)) 360.0))) +
+      180.0 + 102.9372) 360.0) with hlr
+  -- ε = 23.44°, φ, c0 in radians
+  set ε := pradians 23.44 with hε
+  have hε0 : 0 ≤ ε := by rw [hε]; unfold pradians; positivity
+  have hε1 : ε ≤ Real.pi / 2 := by rw [hε]; unfold pradians; nlinarith
+  have hδ := abs_arcsin_mul_le (l := lr) hε0 hε1
+  have hsd : |psin lr * psin ε| ≤ 1 := by
+    unfold psin; rw [abs_mul]
+    calc |Real.sin lr| * |Real.sin ε| ≤ 1 * 1 :=
+          mul_le_mul (Real.abs_sin_le_one _) (Real.abs_sin_le_one _) (abs_nonneg _) (by norm_num)
+      _ = 1 := by norm_num
+  have t2 : plt 1.0 (pabs (psin lr * psin ε)) = false := by
+    unfold plt pabs; simp only [decide_eq_false_iff_not, not_lt]; norm_num; rw [← abs_mul]; exact hsd
+  simp only [t2, Bool.false_eq_true, if_false]
+  set φ := pradians lat with hφ
+  set c0 := pradians (rise_h0 alt) with hc0
+  have hφabs : |φ| = |lat| * (Real.pi / 180) := by
+    rw [hφ]; unfold pradians; rw [abs_mul, abs_of_pos (by positivity : (0:ℝ) < Real.pi / 180)]
+  have hc0v : c0 = (-0.83 - 2.076 * Real.sqrt alt / 60.0) * (Real.pi / 180) := by
+    rw [hc0]; unfold pradians rise_h0 psqrt; rfl
+  have hc0le : c0 ≤ 0 := by
+    rw [hc0v]; apply mul_nonpos_of_nonpos_of_nonneg _ (by positivity)
+    norm_num; linarith [show (0:ℝ) ≤ 2.076 * Real.sqrt alt / 60 by positivity]
+  have habs0 := abs_nonneg lat
+  have hsum : |φ| + |pasin (psin lr * psin ε)| ≤ Real.pi / 2 + c0 := by
+    have : |φ| + ε ≤ Real.pi / 2 + c0 := by
+      rw [hφabs, hε, hc0v]; unfold pradians
+      have : (|lat| + 23.44 + 0.83 + 2.076 * Real.sqrt alt / 60) * (Real.pi / 180) ≤ 90 * (Real.pi / 180) :=
+        mul_le_mul_of_nonneg_right hlat (by positivity)
+      norm_num at this ⊢; linarith
+    unfold pasin psin at *; linarith
+  have hc0ge : -(Real.pi / 2) ≤ c0 := by
+    have := abs_nonneg φ; have := abs_nonneg (pasin (psin lr * psin ε)); linarith
+  have hδlt : |pasin (psin lr * psin ε)| < Real.pi / 2 := by
+    have : ε < Real.pi / 2 := by rw [hε]; unfold pradians; nlinarith
+    unfold pasin psin at *; linarith
+  have hφlt : |φ| < Real.pi / 2 := by
+    rw [hφabs]; nlinarith [hl.1, hl.2, abs_le.mpr ⟨hl.1, hl.2⟩]
+  have hcφ : 0 < Real.cos φ := Real.cos_pos_of_mem_Ioo ⟨by linarith [neg_abs_le φ], by linarith [le_abs_self φ]⟩
+  have hcδ : 0 < Real.cos (pasin (psin lr * psin ε)) :=
+    Real.cos_pos_of_mem_Ioo ⟨by linarith [neg_abs_le (pasin (psin lr * psin ε))], by linarith [le_abs_self (pasin (psin lr * psin ε))]⟩
+  have hcos : 0 < Real.cos φ * Real.cos (pasin (psin lr * psin ε)) := mul_pos hcφ hcδ
+  have t4 : peq (pcos φ * pcos (pasin (psin lr * psin ε))) 0.0 = false := by
+    unfold peq pcos; simp only [decide_eq_false_iff_not]; norm_num
+    exact ⟨hcφ.ne', hcδ.ne'⟩
+  simp only [t4, Bool.false_eq_true, if_false]
+  have hsin_asin : Real.sin (pasin (psin lr * psin ε)) = psin lr * psin ε := by
+    unfold pasin; exact Real.sin_arcsin (neg_le_of_abs_le hsd) (le_of_abs_le hsd)
+  have hmain := cos_om_bounds hc0le hc0ge hsum hcos
+  have t5 : plt 1.0 (pabs (rise_cos_om lat (psin lr * psin ε) (pcos (pasin (psin lr * psin ε))) alt)) = false := by
+    unfold plt pabs rise_cos_om; simp only [decide_eq_false_iff_not, not_lt]
+    rw [hsin_asin] at hmain
+    norm_num; exact hmain
+  simp only [t5, Bool.false_eq_true, if_false]
+  exact ⟨_, rfl⟩
+
+/-- The clause "for every latitude inside the polar circles" is false of the code: at latitude 66.5°
+    (inside the accepted range |φ| ≤ 66°33'), sea level, with the Sun at ecliptic longitude 90°
+    (June solstice, e.g. `Epoch(2020, 6, 21)`), the `acos` argument of `rise_set` is below −1: the
+    Sun's centre does not reach −0.83° that night and Python raises `ValueError("math domain error")`. -/
+theorem rise_safe_counterexample :
+    rise_cos_om 66.5 (psin (pradians 90) * psin (pradians 23.44))
+      (pcos (pasin (psin (pradians 90) * psin (pradians 23.44)))) 0 < -1 ∧ (66.5 : ℝ) ≤ rise_limit := by
+  have hpi := Real.pi_pos
+  have h90 : psin (pradians 90) = 1 := by
+    unfold psin pradians
+    rw [show (90 : ℝ) * (Real.pi / 180) = Real.pi / 2 by ring]; exact Real.sin_pi_div_two
+  have hε0 : 0 ≤ pradians 23.44 := by unfold pradians; positivity
+  have hε1 : pradians 23.44 ≤ Real.pi / 2 := by unfold pradians; nlinarith
+  have hasin : pasin (1 * psin (pradians 23.44)) = pradians 23.44 := by
+    rw [one_mul]; unfold pasin psin; exact Real.arcsin_sin (by linarith) hε1
+  refine ⟨?_, by rw [rise_limit_val]; norm_num⟩
+  rw [h90, hasin]
+  unfold rise_cos_om rise_h0 psqrt
+  rw [Real.sqrt_zero]
+  have hφ0 : 0 < pradians 66.5 := by unfold pradians; positivity
+  have hφ1 : pradians 66.5 < Real.pi / 2 := by unfold pradians; nlinarith
+  have hε1' : pradians 23.44 < Real.pi / 2 := by unfold pradians; nlinarith
+  have hcos : 0 < pcos (pradians 66.5) * pcos (pradians 23.44) := by
+    unfold pcos
+    exact mul_pos (Real.cos_pos_of_mem_Ioo ⟨by linarith, hφ1⟩) (Real.cos_pos_of_mem_Ioo ⟨by linarith, hε1'⟩)
+  rw [div_lt_iff₀ hcos]
+  -- cos(φ + ε) = cos(π/2 − x) = sin x with x = 0.06°, and sin(−0.83°) < sin(−0.06°)
+  have hsum : pradians 66.5 + pradians 23.44 = Real.pi / 2 - 0.06 * (Real.pi / 180) := by
+    unfold pradians; ring
+  have hcs : Real.cos (pradians 66.5 + pradians 23.44) = Real.sin (0.06 * (Real.pi / 180)) := by
+    rw [hsum, Real.cos_pi_div_two_sub]
+  rw [Real.cos_add] at hcs
+  have hlt : Real.sin (pradians (-0.83 - 2.076 * 0 / 60.0)) < Real.sin (-(0.06 * (Real.pi / 180))) := by
+    apply Real.sin_lt_sin_of_lt_of_le_pi_div_two
+    · unfold pradians; nlinarith
+    · nlinarith
+    · unfold pradians; nlinarith
+  rw [Real.sin_neg] at hlt
+  unfold psin pcos
+  linarith
+
 end Pymeeus.C14
